@@ -34,6 +34,15 @@ class PropertyFailure(AssertionError):
   pass
 
 
+class ShrinkBudgetExhausted(KeyboardInterrupt):
+  """Raised from inside a failing example once shrinking has used its wall budget; Hypothesis treats a
+  KeyboardInterrupt as 'stop now', and the last failing spec seen (the smallest so far) is reported.
+  Only ever raised for an example that already fails, so it cannot turn a pass into a failure or vice versa."""
+
+
+SHRINK_BUDGET_S = {'quick': float(os.environ.get('VERIF_SHRINK_S', '25')), 'thorough': 240.0}
+
+
 def spec_hash(spec):
   return hashlib.sha1(json.dumps(spec, sort_keys=True, default=str).encode()).hexdigest()[:16]
 
@@ -130,6 +139,8 @@ class State:
     self.fail = None
     self.samples = []
     self.matchers = finding_matchers(prop.ID)
+    self.first_fail_t = None
+    self.shrink_budget = None
 
   def handle(self, spec, outcome, raise_on_fail=True):
     self.evals += 1
@@ -162,6 +173,11 @@ class State:
       self.fail = {'spec': jsonable(spec), 'kinds': [k for k, _ in fresh],
                    'details': [jsonable(d) for _, d in fresh]}
       if raise_on_fail:
+        now = time.time()
+        if self.first_fail_t is None:
+          self.first_fail_t = now
+        elif self.shrink_budget is not None and now - self.first_fail_t > self.shrink_budget:
+          raise ShrinkBudgetExhausted(fresh[0][0])
         raise PropertyFailure(fresh[0][0])
     return fresh
 
@@ -203,6 +219,7 @@ def shard_main(args):
     from hypothesis import given, seed as hseed
     prop = load_prop(prop_id)
     state = State(prop, suspended)
+    state.shrink_budget = SHRINK_BUDGET_S[tier]
     shrink = getattr(prop, 'SHRINK', {}).get(tier, True)
     try:
       if hasattr(prop, 'machine'):
@@ -224,7 +241,7 @@ def shard_main(args):
         def test(spec):
           state.handle(spec, safe_run(prop, spec))
         test()
-    except PropertyFailure:
+    except (PropertyFailure, ShrinkBudgetExhausted):
       pass
     out = state.export()
     out['error'] = None
